@@ -125,6 +125,8 @@ def e_text(e):
         return "IF(%s, %s, %s)" % (e_text(e["a"]), e_text(e["b"]), e_text(e["c"]))
     if k == "coalesce":
         return "COALESCE(%s)" % ", ".join(e_text(x) for x in e["args"])
+    if k == "in":
+        return "(%s %s (%s))" % (e_text(e["a"]), "NOT IN" if e["neg"] else "IN", ", ".join(e_text(x) for x in e["args"]))
     if k == "exists":
         return "EXISTS " + g_text(e["g"])
     if k == "notexists":
